@@ -172,7 +172,9 @@ fn run_once(scn: &Arc<Scenario>, prefix: &[usize]) -> ExecResult<Observed> {
     sess.drop_points = scn.drop_points;
     let session = Arc::new(sess);
     let scn2 = scn.clone();
-    run_controlled(session, prefix, 4000, move || {
+    // step horizon: generous for the ordinary scenarios, scaled for the long-run ones
+    let horizon = 4000 + 6 * scn.workers * scn.budget * scn.rounds;
+    run_controlled(session, prefix, horizon, move || {
         let (tx, rx) = channel::<Report>();
         let reporter = Reporter {
             tx,
@@ -676,6 +678,12 @@ fn scenarios(thorough: bool) -> Vec<(Scenario, Vec<usize>)> {
     if t {
         add(2, 2, 0, true, 1, 0, Inject::None, vec![3], 1);
     }
+    // long runs: a worker gets hundreds of frames ahead of the collector (more results outstanding
+    // than any small queue capacity: beyond 256, and beyond 1024)
+    add(2, 1, 0, false, 1, 4, Inject::None, vec![1], 300);
+    add(3, 1, 0, false, 1, 4, Inject::None, vec![0], 300);
+    add(2, 1, 0, false, 1, 4, Inject::None, vec![0], 1100);
+    add(2, 2, 1, false, 1, 0, Inject::None, vec![0], 300);
     // zero required frame errors: the point ends without consuming a frame (ratios are 0/0)
     for w in 1..=3 {
         add(w, 0, 0, true, 1, 0, Inject::None, vec![if w == 3 { 2 } else { 3 }], 1);
@@ -837,7 +845,9 @@ pub fn run(run: &Run) -> i32 {
         let mut jobs = Vec::new();
         for (scn, bounds) in &list {
             let b = *bounds.last().unwrap();
-            let nshards = match (scn.workers, b, scn.rounds) {
+            let nshards = if scn.budget > 100 && b >= 1 {
+                16
+            } else { match (scn.workers, b, scn.rounds) {
                 (2, UNBOUNDED, _) => 256,
                 (1, UNBOUNDED, _) => 4,
                 (4, b, _) if b >= 2 => 64,
@@ -851,7 +861,7 @@ pub fn run(run: &Run) -> i32 {
                 (2, 2, 2) => 8,
                 (2, 2, _) => 2,
                 _ => 1,
-            };
+            } };
             for shard in 0..nshards {
                 jobs.push(Job { scenario: scn.id.clone(), bound: b, shard, nshards });
             }
